@@ -19,7 +19,7 @@ pub fn independent_verify(fam: FamId, s: &Snap) -> Verdict {
         Some(x) => x,
         None => return Verdict::Invalid,
     };
-    if fam == FamId::Var {
+    if matches!(fam, FamId::Var | FamId::Wide) {
         let c = record::content_from_fields(s.seq, &s.pairs);
         return keys::var_verify(&pk, &c, &s.sig);
     }
@@ -127,11 +127,13 @@ pub fn reserved_via_generic(op: &Op) -> bool {
     }
 }
 
+/// the record carries a `secp256k1` entry that CombinedKey uses as the record's key: a valid
+/// compressed key, or a valid point in the 65-byte uncompressed form (tag 04)
 pub fn secp_valid_entry(pairs: &[(Vec<u8>, Vec<u8>)]) -> bool {
     pairs
         .iter()
         .find(|(k, _)| k == b"secp256k1")
         .and_then(|(_, v)| rlp::decode_exact(v).ok())
-        .and_then(|i| i.as_str().map(|s| crypto::secp_pk_valid(s)))
+        .and_then(|i| i.as_str().map(|s| crypto::secp_pk_valid(s) || (s.len() == 65 && s[0] == 4 && secp256k1::PublicKey::from_slice(s).is_ok())))
         .unwrap_or(false)
 }
